@@ -15,7 +15,7 @@ def plan(tier):
         Q(P, 3, ['****'], wit=(W_ERR,)),                # required options, greedy, unlimited positionals: never succeeds with one token
         Q(P, 3, ['-o=*', '--m', '***']),
         Q(P, 2, ['****']),                             # reversible toggle, option with default, no positionals
-        Q(P, 2, ['--no-?']),                           # --no-<any name>
+        Q(P, 2, ['--no-?']), Q(P, 2, ['--no-a**'], wit=(W_OK, W_ERR)),                           # --no-<any name>
         Q(P, 4, ['****']),
         Q(P, 5, [], env={0: '***'}, wit=(W_OK,)),      # environment: option value is any string
         Q(P, 5, [], env={1: '***'}, wit=(W_OK,)),      # multi-option value list
